@@ -262,6 +262,9 @@ func checkShrinkRefusal(p *Prog, r *Report, overhead int64) {
 				}
 				return true
 			})
+			if !found && p.refusesThroughHelper(fi, c, spt, fRing, overhead) {
+				found = true
+			}
 			if found {
 				r.ok("C10.M3", fi.Name, p.Pos(st.Node), construct, "every queued segment is tested against the new mss; a longer one makes SetMtu refuse")
 			} else {
@@ -771,7 +774,6 @@ func checkFECGroupSize(p *Prog, r *Report) {
 	fMax := p.Field("fecEncoder", "maxSize")
 	fCount := p.Field("fecEncoder", "shardCount")
 	c := p.CFG(enc)
-	fa := p.FactsOf(enc)
 	nAcc := 0
 	var resets []Point
 	for _, st := range p.FieldStores(fMax) {
@@ -785,11 +787,9 @@ func checkFECGroupSize(p *Prog, r *Report) {
 			continue
 		}
 		nAcc++
-		fs := fa.AtNode(st.Node)
-		// maxSize = sz under maxSize < sz, sz = len(b)
-		okA := fs.Holds(lt(tFld(st.Base, fMax), t))
-		rt := fs.Resolve(t)
-		okL := rt.Op == "len"
+		// maxSize = sz under maxSize < sz (or maxSize = max(maxSize, sz)), sz = len(b)
+		rt, okA := p.runningMax(enc, st.Node, tFld(st.Base, fMax), st.Rhs)
+		okL := okA && rt.Op == "len"
 		r.check(okA && okL, "C10.M7", enc.Name, p.Pos(st.Node), "maxSize = "+exprString(st.Rhs), "running maximum of len(packet)", "maxSize is not the running maximum of the group's packet lengths")
 	}
 	if nAcc == 0 {
@@ -911,7 +911,7 @@ func checkOOBBound(p *Prog, r *Report) {
 	okG := false
 	inspectBody(gm, func(x ast.Node) bool {
 		if ret, ok := x.(*ast.ReturnStmt); ok && len(ret.Results) == 1 {
-			t := p.Term(ret.Results[0])
+			t := p.resolveSingleDefs(gm, p.Term(ret.Results[0]))
 			if t.IsConst() {
 				return true
 			}
@@ -926,4 +926,129 @@ func checkOOBBound(p *Prog, r *Report) {
 		return true
 	})
 	r.check(okG, "C10.M8", gm.Name, p.Pos(gm.Node), "GetOOBMaxSize", "kcp.mtu - convSize (the SendOOB bound solved for len(data))", "GetOOBMaxSize disagrees with the bound SendOOB enforces")
+}
+
+// refusesThroughHelper: a branch that dominates the store refuses (returns a
+// non-zero constant) when a predicate helper H(ring, newmss) reports false, and H
+// reports false exactly when it finds a segment in its ring parameter whose data is
+// longer than its length parameter.
+func (p *Prog) refusesThroughHelper(fi *FuncInfo, c *CFG, spt Point, fRing *types.Var, overhead int64) bool {
+	forEach := p.Method("RingBuffer", "ForEach")
+	for _, b := range c.live {
+		ct := c.CondTerm(b)
+		if ct == nil || len(b.Succs) != 2 {
+			continue
+		}
+		// the true edge refuses
+		refuses := false
+		for _, nd := range b.Succs[0].Nodes {
+			if ret, ok := nd.(*ast.ReturnStmt); ok && len(ret.Results) == 1 {
+				if v, ok := p.constVal(ret.Results[0]); ok && v != 0 {
+					refuses = true
+				}
+			}
+		}
+		// and the fall-through edge is the one that leads to the store
+		if !refuses || !c.BlockDominates(b.Succs[1], spt.B) {
+			continue
+		}
+		// the condition is a disjunction; one disjunct is !H(ring, mss)
+		var ds []*Term
+		var collect func(t *Term)
+		collect = func(t *Term) {
+			if t.Op == "||" {
+				for _, a := range t.Args {
+					collect(a)
+				}
+				return
+			}
+			ds = append(ds, t)
+		}
+		collect(ct)
+		for _, d := range ds {
+			if d.Op != "not" || d.Args[0].Op != "call" {
+				continue
+			}
+			call := d.Args[0]
+			hf, _ := call.Obj.(*types.Func)
+			if hf == nil || hf.Pkg() != p.Types {
+				continue
+			}
+			h := p.FuncOf(hf)
+			if h == nil || h.Body == nil {
+				continue
+			}
+			fs := p.FactsOf(fi).At(Point{b, len(b.Nodes) - 1})
+			ringArg, lenArg := -1, -1
+			for i, a := range call.Args {
+				ra := fs.Resolve(a)
+				if _, ok := fieldBase(ra, fRing); ok {
+					ringArg = i
+				}
+				if l := Lin(ra); l.C == -overhead && len(l.Coef) == 1 {
+					lenArg = i
+				}
+			}
+			if ringArg < 0 || lenArg < 0 {
+				continue
+			}
+			// map argument positions to H's parameters (a method receiver is argument 0)
+			var params []types.Object
+			if rv := p.recvVar(h); rv != nil {
+				params = append(params, rv)
+			}
+			for i := 0; ; i++ {
+				o := h.paramObj(p, i)
+				if o == nil {
+					break
+				}
+				params = append(params, o)
+			}
+			if ringArg >= len(params) || lenArg >= len(params) {
+				continue
+			}
+			pr, pl := params[ringArg], params[lenArg]
+			okLoop, okTail := false, false
+			ast.Inspect(h.Body, func(n ast.Node) bool {
+				rs, ok := n.(*ast.RangeStmt)
+				if !ok {
+					return true
+				}
+				t := p.Term(rs.X)
+				if t.Op != "mval" || t.Obj != forEach || t.Args[0].Op != "var" || t.Args[0].Obj != pr {
+					return true
+				}
+				id, ok := rs.Key.(*ast.Ident)
+				if !ok {
+					return true
+				}
+				dataLen := mk("len", p.F(tVar(p.Info.Defs[id]), "segment", "data"))
+				for _, bst := range rs.Body.List {
+					is, ok := bst.(*ast.IfStmt)
+					if !ok {
+						continue
+					}
+					cj := Conjuncts(p.Term(is.Cond))
+					if len(cj) != 1 || cj[0].Op != "<" || cj[0].Args[1].Key() != dataLen.Key() || cj[0].Args[0].Op != "var" || cj[0].Args[0].Obj != pl {
+						continue
+					}
+					for _, s2 := range is.Body.List {
+						if ret, ok := s2.(*ast.ReturnStmt); ok && len(ret.Results) == 1 && p.Term(ret.Results[0]).Op == "false" {
+							okLoop = true
+						}
+					}
+				}
+				return true
+			})
+			if n := len(h.Body.List); n > 0 {
+				if ret, ok := h.Body.List[n-1].(*ast.ReturnStmt); ok && len(ret.Results) == 1 && p.Term(ret.Results[0]).Op == "true" {
+					okTail = true
+				}
+			}
+			if okLoop && okTail {
+				return true
+			}
+		}
+	}
+	return false
 }
